@@ -6,6 +6,8 @@
 #include <amgcl/detail/spgemm.hpp>
 #include <amgcl/adapter/crs_tuple.hpp>
 #include <amgcl/value_type/complex.hpp>
+#include <amgcl/value_type/static_matrix.hpp>
+#include <amgcl/adapter/block_matrix.hpp>
 #include <complex>
 #include <tuple>
 #ifdef _OPENMP
@@ -79,6 +81,38 @@ VQ_OP(copy_convert) {
     auto A = t.crsT<double>();
     amgcl::backend::crs<double, int, int> Ai(*A);
     Crs C(Ai); return show_crs(C); }
+
+// adapter::block_matrix: scalar CRS -> crs<static_matrix<Q,b,b>> through the row-iterator constructor;
+// printed {np mp | J:v,v,...(row-major) ...} in stored order; unblock_matrix of the result
+template <int B> struct BlkOps {
+    typedef amgcl::static_matrix<Q, B, B> blk;
+    typedef amgcl::backend::crs<blk, ptrdiff_t, ptrdiff_t> BCrs;
+    static std::string show_b(const BCrs &M) {
+        std::ostringstream os; long n = (long)M.nrows, m = (long)M.ncols;
+        os << "{" << n << " " << m;
+        if ((n > 0 || M.ptr) && M.ptr[0] != 0) return "BADCRS ptr0";
+        for (long i = 0; i < n; ++i) {
+            if (M.ptr[i+1] < M.ptr[i]) return "BADCRS nonmonotone-ptr";
+            os << " |";
+            for (ptrdiff_t j = M.ptr[i]; j < M.ptr[i+1]; ++j) {
+                if (M.col[j] < 0 || (long)M.col[j] >= m) return "BADCRS col-out-of-range";
+                os << " " << M.col[j] << ":";
+                for (int k = 0; k < B; ++k) for (int l = 0; l < B; ++l) { if (k || l) os << ","; os << show(M.val[j](k, l)); }
+            }
+        }
+        if (n > 0 && (size_t)M.ptr[n] != M.nnz) return "BADCRS nnz";
+        os << "}"; return os.str();
+    }
+    static std::string block(const Crs &A)   { BCrs M(amgcl::adapter::block_matrix<blk>(A)); return show_b(M); }
+    static std::string unblock(const Crs &A) { BCrs M(amgcl::adapter::block_matrix<blk>(A));
+        auto U = amgcl::adapter::unblock_matrix(M); return show_crs(*U); }
+};
+VQ_OP(block) { long b = t.i(); auto A = t.crs();
+    switch (b) { case 2: return BlkOps<2>::block(*A); case 3: return BlkOps<3>::block(*A); case 4: return BlkOps<4>::block(*A); }
+    throw std::logic_error("block size"); }
+VQ_OP(unblock) { long b = t.i(); auto A = t.crs();
+    switch (b) { case 2: return BlkOps<2>::unblock(*A); case 3: return BlkOps<3>::unblock(*A); case 4: return BlkOps<4>::unblock(*A); }
+    throw std::logic_error("block size"); }
 
 // complex values: tokens "re im", printed "re,im"
 typedef std::complex<double> Cx;
